@@ -40,6 +40,7 @@ DIRS = ["p", "p/a", "p/a/b", "p/a/b/c", "p/s", "."]
 def generate(rng, tier):
     files = {}
     configs = {}  # rel path -> opts
+    linked = {}   # config path that is a symlink -> its target
     used_keys = set()
 
     def add_config(path, n=None):
@@ -56,7 +57,14 @@ def generate(rng, tier):
                 del opts[k]
         used_keys.update(opts)
         configs[path] = opts
-        files[path] = gen_config.render(opts)
+        if rng.chance(12):
+            # the config file is a symbolic link to a file shared from elsewhere
+            tgt = "sharedcfg/cfg%d.toml" % len(configs)
+            linked[path] = tgt
+            files[path] = {"symlink": os.path.relpath(tgt, os.path.dirname(path) or ".")}
+            files[tgt] = gen_config.render(opts)
+        else:
+            files[path] = gen_config.render(opts)
 
     depth = rng.range(0, 3)
     chain = ["p", "p/a", "p/a/b", "p/a/b/c"][: depth + 1]
@@ -158,7 +166,7 @@ def generate(rng, tier):
                     opts[k] = rng.choice([x for x in gen_config.POOL[k] if x <= 50] or [50])
         else:
             sanitise(opts, 100)
-        files[path] = gen_config.render(opts)
+        files[linked.get(path, path)] = gen_config.render(opts)
     lane = "unreadable" if rng.chance(12) else "normal"
     return {
         "world": {"files": files}, "configs": configs, "probes": probes, "order": order, "cli": cli,
